@@ -116,9 +116,9 @@ Theorem C09_break_cycles_call : forall src a s lvl,
     is_model src a s ->
     (forall k nd c, node_at src k = Some nd -> In c (children nd) ->
                     ((0 < c)%Z -> lvl (key_of c) <= lvl k) /\ ((c < 0)%Z -> lvl (key_of c) < lvl k)) ->
-    forall ai use_memo is_ev fuel t m c r,
+    forall ai tc use_memo is_ev fuel t m c r,
       topo (t_nodes t) -> memo_ok src a s t m ->
-      bc fuel use_memo src ai is_ev t m c [] = Some r ->
+      bc fuel tc use_memo src ai is_ev t m c [] = Some r ->
       ext t (r_tgt r) /\ topo (t_nodes (r_tgt r)) /\ memo_ok src a s (r_tgt r) (r_memo r) /\
       key_valid (r_tgt r) (r_key r) /\ val a (r_tgt r) (r_key r) = lit_val s c.
 Proof. exact bc_top_value. Qed.
@@ -127,18 +127,18 @@ Print Assumptions C09_break_cycles_call.
 (* break_cycles (both passes) for the faithful model: every query-like and evidence key of the
    acyclic program has, for every atom assignment, the value the model of the cyclic program
    gives the source key.  (fuel exhaustion / assertion failures are the None result) *)
-Theorem C09_break_cycles_correct : forall use_memo src ai labeled evidence D ks1 ks2 a s,
+Theorem C09_break_cycles_correct : forall tc use_memo src ai labeled evidence D ks1 ks2 a s,
     is_model src a s -> stratified src ->
-    break_cycles_m use_memo src ai labeled evidence = Some (D, ks1, ks2) ->
+    break_cycles_m tc use_memo src ai labeled evidence = Some (D, ks1, ks2) ->
     topo D /\
     Forall2 (fun n k => key_val (vget (dag_val a D)) k = key_val s n) labeled ks1 /\
     Forall2 (fun n k => key_val (vget (dag_val a D)) k = key_val s n) evidence ks2.
 Proof. exact break_cycles_correct. Qed.
 Print Assumptions C09_break_cycles_correct.
 
-Theorem C09_break_cycles_nomemo : forall src ai labeled evidence D ks1 ks2 a s,
+Theorem C09_break_cycles_nomemo : forall tc src ai labeled evidence D ks1 ks2 a s,
     is_model src a s -> stratified src ->
-    break_cycles_m false src ai labeled evidence = Some (D, ks1, ks2) ->
+    break_cycles_m tc false src ai labeled evidence = Some (D, ks1, ks2) ->
     topo D /\
     Forall2 (fun n k => key_val (vget (dag_val a D)) k = key_val s n) labeled ks1 /\
     Forall2 (fun n k => key_val (vget (dag_val a D)) k = key_val s n) evidence ks2.
@@ -183,10 +183,10 @@ Definition ex_F : graph :=
   [NAtom 1; NAtom 2; NAtom 3; NAnd [-2; 3]%Z; NOr [4; 8]%Z; NAnd [1; 5]%Z; NOr [6; 9]%Z; NAnd [7; 3]%Z; NAtom 4].
 Definition ex_ai : atom_info := {| ai_group := []; ai_extra_id := [] |}.
 
-Definition ex_res := Eval vm_compute in break_cycles_m true ex_F ex_ai [Some 7%Z; Some 5%Z] [].
+Definition ex_res := Eval vm_compute in break_cycles_m false true ex_F ex_ai [Some 7%Z; Some 5%Z] [].
 
 Example C09_example_break :
-  break_cycles_m true ex_F ex_ai [Some 7%Z; Some 5%Z] [] = ex_res /\
+  break_cycles_m false true ex_F ex_ai [Some 7%Z; Some 5%Z] [] = ex_res /\
   topob ex_F = false /\
   match ex_res with
   | Some (D, ks, _) => validate_break ex_F D (combine [Some 7%Z; Some 5%Z] ks) && (length D =? 9)
